@@ -458,7 +458,7 @@ class TypeGen:
             f = pick(d, cands)
             m.update(kind="field", field=f["n"], ret=f["t"])
             return m
-        if idx >= 0 and self.cfg["recursion"] and chance(d, 0.12):
+        if idx >= 0 and self.cfg["recursion"] and not cd.get("params") and chance(d, 0.12):  # (a generic class has no default type name)
             # the class refers to itself through the return type of the method only
             form = pick(d, ["opt", "list"])
             ref = {"k": "cls", "i": idx}
